@@ -188,6 +188,26 @@ func c10Scenario(ops []c10op, hist []int) *vsched.Scenario {
 			obs = append(obs, fmt.Sprintf("d%d/%d", k.Domain, k.ID))
 		}
 		sort.Strings(obs)
+		// behavioural probe after quiescence: every expiry that was due has run, so a data set is decoded
+		// exactly when its template is alive (state inspection alone would miss a stale decode path)
+		for _, op := range ops {
+			if op.kind != 'd' {
+				continue
+			}
+			k := colmodel.Key{Domain: op.dom, ID: op.id}
+			e, known := life[k]
+			alive := known && now.Before(e.refreshed.Add(ttl))
+			_, err := cp.VerifDecodePacket(c10msg(op), "10.0.0.1:4739")
+			for vsched.Len(ch) > 0 {
+				vsched.Recv(ch)
+			}
+			if alive && err != nil {
+				vsched.Fail("dropped-early", "at quiescence: data for (d%d,%d) refused although its template was refreshed %v ago (lifetime %v): %v", op.dom, op.id, now.Sub(e.refreshed), ttl, err)
+			}
+			if !alive && err == nil {
+				vsched.Fail("outlived", "at quiescence: data for (d%d,%d) is still decoded although its template's lifetime has elapsed and every due expiry has run (or it was invalidated / never announced)", op.dom, op.id)
+			}
+		}
 		vsched.Logf("stored=%v", obs)
 	}
 	return &vsched.Scenario{Name: "history", Main: main, TrackRaces: true, Start: t0}
